@@ -62,8 +62,8 @@ package graphsync
 // graphsync callbacks: every event is routed through the request id -> channel id map (C16)
 
 //@ extern func (github.com/ipfs/go-graphsync.IncomingBlockHookActions).TerminateWithError
-//@ func (*graphsync.Transport).gsIncomingBlockHook {C16,C07,C01}
-//@   ensures [refusal-terminates] {C16,C04} (calls(EventsHandler.OnDataReceived) == 1 && ret(EventsHandler.OnDataReceived, 0) != nil && ret(EventsHandler.OnDataReceived, 0) != datatransfer.ErrPause) ?
+//@ func (*graphsync.Transport).gsIncomingBlockHook {C16,C07,C01,C08,C11}
+//@   ensures [refusal-terminates] {C16,C04,C08,C11} (calls(EventsHandler.OnDataReceived) == 1 && ret(EventsHandler.OnDataReceived, 0) != nil && ret(EventsHandler.OnDataReceived, 0) != datatransfer.ErrPause) ?
 //@       calls(IncomingBlockHookActions.TerminateWithError) == 1 && all(IncomingBlockHookActions.TerminateWithError, $1 == ret(EventsHandler.OnDataReceived, 0)) && never(IncomingBlockHookActions.PauseRequest) :
 //@       never(IncomingBlockHookActions.TerminateWithError)
 //@   acquires {C20} channels.blockIndexCache.lk, channels.progressCache.lk, graphsync.requestIDToChannelIDMap.lk, tracing.SpansIndex.spansLk
@@ -84,11 +84,11 @@ package graphsync
 //@       $3 == block.BlockSize() && $4 == block.Index() && $5) && all(requestIDToChannelIDMap.load, $1 == request.ID())
 //@   ensures [only] only(requestIDToChannelIDMap.load, EventsHandler.OnDataSent)
 
-//@ func (*graphsync.Transport).gsOutgoingBlockHook {C16,C07,C08,C01}
-//@   ensures [refusal-terminates] {C16,C04} calls(EventsHandler.OnDataQueued) == 1 && ret(EventsHandler.OnDataQueued, 1) != nil && ret(EventsHandler.OnDataQueued, 1) != datatransfer.ErrPause ==>
+//@ func (*graphsync.Transport).gsOutgoingBlockHook {C16,C07,C08,C01,C11}
+//@   ensures [refusal-terminates] {C16,C04,C11} calls(EventsHandler.OnDataQueued) == 1 && ret(EventsHandler.OnDataQueued, 1) != nil && ret(EventsHandler.OnDataQueued, 1) != datatransfer.ErrPause ==>
 //@       calls(OutgoingBlockHookActions.TerminateWithError) == 1 && all(OutgoingBlockHookActions.TerminateWithError, $1 == ret(EventsHandler.OnDataQueued, 1)) && never(OutgoingBlockHookActions.PauseResponse) &&
 //@       never(OutgoingBlockHookActions.SendExtensionData)
-//@   ensures [notice-travels-with-block] {C08} calls(EventsHandler.OnDataQueued) == 1 && (ret(EventsHandler.OnDataQueued, 1) == nil || ret(EventsHandler.OnDataQueued, 1) == datatransfer.ErrPause) ==>
+//@   ensures [notice-travels-with-block] {C08,C11} calls(EventsHandler.OnDataQueued) == 1 && (ret(EventsHandler.OnDataQueued, 1) == nil || ret(EventsHandler.OnDataQueued, 1) == datatransfer.ErrPause) ==>
 //@       calls(ToExtensionData) == (ret(EventsHandler.OnDataQueued, 0) != nil ? 1 : 0) && all(ToExtensionData, $0 == ret(EventsHandler.OnDataQueued, 0)) &&
 //@       (calls(ToExtensionData) == 1 && ret(ToExtensionData, 1) != nil ? calls(OutgoingBlockHookActions.TerminateWithError) == 1 :
 //@           never(OutgoingBlockHookActions.TerminateWithError) && calls(OutgoingBlockHookActions.SendExtensionData) == (calls(ToExtensionData) == 1 ? len(ret(ToExtensionData, 0)) : 0))
@@ -160,11 +160,11 @@ package graphsync
 //@   ensures [at-most-one] calls(EventsHandler.OnRequestReceived) + calls(EventsHandler.OnResponseReceived) <= 1 &&
 //@       only(GetTransferData, EventsHandler.OnRequestReceived, EventsHandler.OnResponseReceived)
 
-//@ func (*graphsync.Transport).gsRequestUpdatedHook {C16,C05}
-//@   ensures [refusal-terminates] {C16,C04} calls(Transport.processExtension) == 1 && (calls(ToExtensionData) == 1 ==> ret(ToExtensionData, 1) == nil) ==>
+//@ func (*graphsync.Transport).gsRequestUpdatedHook {C16,C05,C11,C04}
+//@   ensures [refusal-terminates] {C16,C04,C11} calls(Transport.processExtension) == 1 && (calls(ToExtensionData) == 1 ==> ret(ToExtensionData, 1) == nil) ==>
 //@       calls(RequestUpdatedHookActions.TerminateWithError) == ((ret(Transport.processExtension, 1) != nil && ret(Transport.processExtension, 1) != datatransfer.ErrPause) ? 1 : 0) &&
 //@       all(RequestUpdatedHookActions.TerminateWithError, $1 == ret(Transport.processExtension, 1))
-//@   ensures [reply-travels-back] {C16} calls(Transport.processExtension) == 1 ==> calls(ToExtensionData) == (ret(Transport.processExtension, 0) != nil ? 1 : 0) &&
+//@   ensures [reply-travels-back] {C16,C11,C04} calls(Transport.processExtension) == 1 ==> calls(ToExtensionData) == (ret(Transport.processExtension, 0) != nil ? 1 : 0) &&
 //@       all(ToExtensionData, $0 == ret(Transport.processExtension, 0)) && (calls(ToExtensionData) == 1 && ret(ToExtensionData, 1) != nil ==> calls(RequestUpdatedHookActions.TerminateWithError) == 1 &&
 //@           never(RequestUpdatedHookActions.SendExtensionData)) &&
 //@       (calls(ToExtensionData) == 1 && ret(ToExtensionData, 1) == nil ==> calls(RequestUpdatedHookActions.SendExtensionData) == len(ret(ToExtensionData, 0)))
@@ -173,13 +173,13 @@ package graphsync
 //@   requires request != nil && update != nil && hookActions != nil && t.events != nil
 //@   ensures [unknown-request] !ret(requestIDToChannelIDMap.load, 1) ==> untouched
 //@   ensures [routed] all(Transport.processExtension, $1 == ret(requestIDToChannelIDMap.load, 0) && $2 == update && $3 == p) && all(requestIDToChannelIDMap.load, $1 == request.ID())
-//@ func (*graphsync.Transport).gsIncomingResponseHook {C16,C05}
-//@   ensures [refusal-terminates] {C16,C04} calls(Transport.processExtension) >= 1 && (calls(ToExtensionData) == 1 ==> ret(ToExtensionData, 1) == nil) ==>
+//@ func (*graphsync.Transport).gsIncomingResponseHook {C16,C05,C11,C04}
+//@   ensures [refusal-terminates] {C16,C04,C11} calls(Transport.processExtension) >= 1 && (calls(ToExtensionData) == 1 ==> ret(ToExtensionData, 1) == nil) ==>
 //@       calls(Transport.processExtension) == 2 && (calls(IncomingResponseHookActions.TerminateWithError) >= 1) == (ret(Transport.processExtension, 1) != nil || ret_last(Transport.processExtension, 1) != nil)
-//@   ensures [reply-travels-back] {C16} calls(Transport.processExtension) >= 1 ==> calls(ToExtensionData) == (ret(Transport.processExtension, 0) != nil ? 1 : 0) &&
+//@   ensures [reply-travels-back] {C16,C11,C04} calls(Transport.processExtension) >= 1 ==> calls(ToExtensionData) == (ret(Transport.processExtension, 0) != nil ? 1 : 0) &&
 //@       all(ToExtensionData, $0 == ret(Transport.processExtension, 0)) &&
 //@       (calls(ToExtensionData) == 1 && ret(ToExtensionData, 1) == nil ==> calls(IncomingResponseHookActions.UpdateRequestWithExtensions) == len(ret(ToExtensionData, 0)))
-//@   ensures [unencodable-reply-terminates] {C16,C12} calls(ToExtensionData) == 1 && ret(ToExtensionData, 1) != nil ==>
+//@   ensures [unencodable-reply-terminates] {C16,C12,C11,C04} calls(ToExtensionData) == 1 && ret(ToExtensionData, 1) != nil ==>
 //@       calls(IncomingResponseHookActions.TerminateWithError) == 1 && never(IncomingResponseHookActions.UpdateRequestWithExtensions) && calls(Transport.processExtension) == 1
 //@   acquires {C20} channels.progressCache.lk, graphsync.Transport.dtChannelsLk, graphsync.dtChannel.lk, graphsync.dtChannel.optionsLk, graphsync.requestIDToChannelIDMap.lk, registry.Registry.registryLk, transportoptions.TransportOptions.optionsLk
 //@   loop 0 invariant [extensions] $i >= 0 && calls(IncomingResponseHookActions.UpdateRequestWithExtensions) == $i
@@ -249,7 +249,7 @@ package graphsync
 
 //@ func (*graphsync.Transport).consumeResponses {C01}
 //@   opaque -- drains the graphsync response and error channels; the last error is returned (loops over channels: not modelled)
-//@ func (*graphsync.Transport).executeGsRequest {C01,C16}
+//@ func (*graphsync.Transport).executeGsRequest {C01,C16,C09}
 //@   acquires {C20} tracing.SpansIndex.spansLk
 //@   requires req != nil && t.events != nil && (*req).onComplete != nil
 //@   ensures [drains-first] first(Transport.consumeResponses, $1 == req)
@@ -304,21 +304,21 @@ package graphsync
 //@   acquires {C20} graphsync.dtChannel.lk
 //@   cancellable ctx
 //@ func (*graphsync.dtChannel).pause {C20}
-//@   ensures [pauses-the-live-request] {C11} c.requestID != nil && !c.requesterCancelled ==> calls(GraphExchange.Pause) == 1 && all(GraphExchange.Pause, $2 == *c.requestID) && result == ret(GraphExchange.Pause, 0)
-//@   ensures [nothing-to-pause] {C11} c.requestID == nil || c.requesterCancelled ==> never(GraphExchange.Pause) && result == nil
+//@   ensures [pauses-the-live-request] {C11,C08} c.requestID != nil && !c.requesterCancelled ==> calls(GraphExchange.Pause) == 1 && all(GraphExchange.Pause, $2 == *c.requestID) && result == ret(GraphExchange.Pause, 0)
+//@   ensures [nothing-to-pause] {C11,C08} c.requestID == nil || c.requesterCancelled ==> never(GraphExchange.Pause) && result == nil
 //@   acquires {C20} graphsync.dtChannel.lk
 //@ func (*graphsync.dtChannel).resume {C20}
-//@   ensures [resumes-the-live-request] {C11} c.requestID != nil && !c.requesterCancelled && calls(ToExtensionData) == (msg != nil ? 1 : 0) && (msg != nil ==> ret(ToExtensionData, 1) == nil) ==>
+//@   ensures [resumes-the-live-request] {C11,C08} c.requestID != nil && !c.requesterCancelled && calls(ToExtensionData) == (msg != nil ? 1 : 0) && (msg != nil ==> ret(ToExtensionData, 1) == nil) ==>
 //@       calls(GraphExchange.Unpause) == 1 && all(GraphExchange.Unpause, $2 == *c.requestID) && result == ret(GraphExchange.Unpause, 0) && c.xferStarted
-//@   ensures [queued-while-requester-away] {C10} c.requestID != nil && c.requesterCancelled ==> never(GraphExchange.Unpause)
-//@   guarantee [queue-appended] {C10} self.requestID != nil && self.requesterCancelled ==>
+//@   ensures [queued-while-requester-away] {C10,C11,C08} c.requestID != nil && c.requesterCancelled ==> never(GraphExchange.Unpause)
+//@   guarantee [queue-appended] {C10,C11,C08} self.requestID != nil && self.requesterCancelled ==>
 //@       len(self.pendingExtensions) == len(old(self.pendingExtensions)) + (calls(ToExtensionData) == 1 && ret(ToExtensionData, 1) == nil ? len(ret(ToExtensionData, 0)) : 0)
-//@   guarantee [queue-kept] {C10} self.requestID != nil && self.requesterCancelled ==>
+//@   guarantee [queue-kept] {C10,C11,C08} self.requestID != nil && self.requesterCancelled ==>
 //@       (forall i int :: 0 <= i && i < len(old(self.pendingExtensions)) ==> self.pendingExtensions[i] == old(self.pendingExtensions)[i])
 //@       -- a message for a requester that is away joins the queue behind the ones already waiting: none of those is dropped or moved
-//@   guarantee [queue-tail] {C10} self.requestID != nil && self.requesterCancelled && calls(ToExtensionData) == 1 && ret(ToExtensionData, 1) == nil ==>
+//@   guarantee [queue-tail] {C10,C11,C08} self.requestID != nil && self.requesterCancelled && calls(ToExtensionData) == 1 && ret(ToExtensionData, 1) == nil ==>
 //@       (forall j int :: 0 <= j && j < len(ret(ToExtensionData, 0)) ==> self.pendingExtensions[len(old(self.pendingExtensions)) + j] == ret(ToExtensionData, 0)[j])
-//@   guarantee [queue-untouched-otherwise] {C10} !(self.requestID != nil && self.requesterCancelled) ==> len(self.pendingExtensions) == len(old(self.pendingExtensions))
+//@   guarantee [queue-untouched-otherwise] {C10,C11,C08} !(self.requestID != nil && self.requesterCancelled) ==> len(self.pendingExtensions) == len(old(self.pendingExtensions))
 //@   modifies c.pendingExtensions, c.xferStarted
 //@   acquires {C20} graphsync.dtChannel.lk
 //@ func (*graphsync.dtChannel).gsReqOpened {C16,C20}
@@ -408,15 +408,15 @@ package graphsync
 //@   requires ctx != nil && msg != nil -- API preconditions: contexts are never nil; the channel is opened with the request / response message that asks for it
 //@   acquires {C20} graphsync.Transport.dtChannelsLk, graphsync.dtChannel.lk
 //@ func (*graphsync.Transport).PauseChannel {C20}
-//@   ensures [routes-to-tracked-channel] {C16,C11} all(Transport.getDTChannel, $1 == chid) && (ret(Transport.getDTChannel, 1) != nil ==> result == ret(Transport.getDTChannel, 1) && never(dtChannel.pause)) &&
+//@   ensures [routes-to-tracked-channel] {C16,C11,C08} all(Transport.getDTChannel, $1 == chid) && (ret(Transport.getDTChannel, 1) != nil ==> result == ret(Transport.getDTChannel, 1) && never(dtChannel.pause)) &&
 //@       (ret(Transport.getDTChannel, 1) == nil ==> calls(dtChannel.pause) == 1 && all(dtChannel.pause, $0 == ret(Transport.getDTChannel, 0)) && result == ret(dtChannel.pause, 0))
 //@   acquires {C20} graphsync.Transport.dtChannelsLk, graphsync.dtChannel.lk
 //@ func (*graphsync.Transport).ResumeChannel {C20}
-//@   ensures [routes-to-tracked-channel] {C16,C11} all(Transport.getDTChannel, $1 == chid) && (ret(Transport.getDTChannel, 1) != nil ==> result == ret(Transport.getDTChannel, 1) && never(dtChannel.resume)) &&
+//@   ensures [routes-to-tracked-channel] {C16,C11,C08} all(Transport.getDTChannel, $1 == chid) && (ret(Transport.getDTChannel, 1) != nil ==> result == ret(Transport.getDTChannel, 1) && never(dtChannel.resume)) &&
 //@       (ret(Transport.getDTChannel, 1) == nil ==> calls(dtChannel.resume) == 1 && all(dtChannel.resume, $0 == ret(Transport.getDTChannel, 0) && $2 == msg) && result == ret(dtChannel.resume, 0))
 //@   acquires {C20} graphsync.Transport.dtChannelsLk, graphsync.dtChannel.lk
-//@ func (*graphsync.Transport).CloseChannel {C09,C20}
-//@   ensures [routes-to-tracked-channel] {C16,C09} all(Transport.getDTChannel, $1 == chid) && (ret(Transport.getDTChannel, 1) != nil ==> result == ret(Transport.getDTChannel, 1) && never(dtChannel.close)) &&
+//@ func (*graphsync.Transport).CloseChannel {C09,C20,C04}
+//@   ensures [routes-to-tracked-channel] {C16,C09,C04} all(Transport.getDTChannel, $1 == chid) && (ret(Transport.getDTChannel, 1) != nil ==> result == ret(Transport.getDTChannel, 1) && never(dtChannel.close)) &&
 //@       (ret(Transport.getDTChannel, 1) == nil ==> calls(dtChannel.close) == 1 && all(dtChannel.close, $0 == ret(Transport.getDTChannel, 0)) && ((result == nil) == (ret(dtChannel.close, 0) == nil)))
 //@   prompt {C09}
 //@   requires ctx != nil
